@@ -626,7 +626,7 @@ func lateHeaderScenario(x *explore.X) {
 
 func TestC08(t *testing.T) {
 	s := explore.NewSuite(t, "C08", "model_checking",
-		"(parser) every header of a 70+ case alphabet (v1 TCP4/TCP6 with minimal..maximal addresses and ports, UNKNOWN bare and 107-byte, over-long lines, bad ports/addresses/signature; v2 every command nibble class x family/protocol byte x lengths 0 / exact / +TLV / 2048 / 2049, wrong version, wrong signature, non-header prefixes) x payload(4) x EVERY segmentation into 2 (quick) / 3 (thorough) segments at all cut positions plus byte-wise delivery, through the real proxyproto.Listener (with connfu) on the simulated network; (stall) every header x EVERY stall offset inside the header with the virtual clock moved to timeout-1ms / +1ms, the bytes before the stall delivered at once or in two parts 0.6 time-outs apart; (several) 2-3 connections with v2/v1 IPv6 and IPv4 headers (with and without TLVs) accepted by one listener and all kept open, addresses and payload of each re-read after the others were parsed, in both orders; (proxy) every header through the complete proxy with a PROXY-protocol listener: X-Forwarded-For at the origin, then a well-formed probe client; an independent grammar of the PROXY protocol specification classifies each header as valid / invalid / receiver's choice and gives the addresses; states = quiescent states after each delivered segment")
+		"(parser) every header of a 70+ case alphabet (v1 TCP4/TCP6 with minimal..maximal addresses and ports, UNKNOWN bare and 107-byte, over-long lines, bad ports/addresses/signature; v2 every command nibble class x family/protocol byte x lengths 0 / exact / +TLV / 2048 / 2049, wrong version, wrong signature, non-header prefixes) x payload(4) x EVERY segmentation into 2 (quick) / 3 (thorough) segments at all cut positions plus byte-wise delivery, through the real proxyproto.Listener (with connfu) on the simulated network; (stall) every header x EVERY stall offset inside the header with the virtual clock moved to timeout-1ms / +1ms, the bytes before the stall delivered at once or in two parts 0.6 time-outs apart; (several) 2-3 connections with v2/v1 IPv6 and IPv4 headers (with and without TLVs) accepted by one listener and all kept open, addresses and payload of each re-read after the others were parsed, in both orders; (proxy) every header through the complete proxy with a PROXY-protocol listener: X-Forwarded-For at the origin, then a well-formed probe client; an independent grammar of the PROXY protocol specification classifies each header as valid / invalid / receiver's choice and gives the addresses; states = quiescent states after each delivered segment; (late-header-through-the-proxy, round 9) every valid header x {0, half, all but one} octets delivered before the client stalls: a well-formed client connecting meanwhile has its request at the origin without any virtual time passing, the stalled connection is closed by the header timeout and nothing of it reaches the origin")
 	s.Assume = []string{"the reference grammar follows haproxy's proxy-protocol.txt; where the specification leaves the choice to the receiver both outcomes are allowed but an accepted connection must report the socket's own addresses", "(concurrent-callers) sync.Mutex/atomic.Bool and the go statement of proxyproto/net.go are redirected at build time to a cooperative scheduler: all interleavings of 2-3 callers of Read/Write/RemoteAddr/LocalAddr on one connection with at most 2 preemptions (2 callers quick, 2-3 callers thorough); unsynchronised accesses are outside this technique (race detector territory)"}
 	run := func(f func(x *explore.X)) func(x *explore.X) {
 		return func(x *explore.X) { world.Run(t, x, func() { f(x) }) }
